@@ -128,6 +128,16 @@ GNU_MISC = dict(
     DT_ANDROID_RELRCOUNT=0x6fffe005,
 )
 
+# GNU binutils 2.40 include/elf/arm.h and include/elf/ppc64.h: the spellings `readelf -r` prints (checked with the
+# live /usr/bin/readelf 2.40 on synthesized objects by the C18 machinery).  binutils reuses 13 (the obsolete
+# R_ARM_SWI24 of glibc) for R_ARM_TLS_DESC (also LLVM ARM.def), writes the ALU_PCREL group without the second
+# underscore, and calls PPC64 relocation 37 R_PPC64_REL30 (glibc: R_PPC64_ADDR30).  The readelf clone's
+# *descriptions* follow binutils since /repo commit e5a74aa; the enum names keep the glibc/LLVM spelling.
+BINUTILS_RELOC_NAMES = dict(
+    R_ARM_TLS_DESC=13, R_ARM_ALU_PCREL7_0=32, R_ARM_ALU_PCREL15_8=33, R_ARM_ALU_PCREL23_15=34,
+    R_PPC64_REL30=37,
+)
+
 # GNU DWARF registry: gcc/binutils include/dwarf2.def and dwarf2.h (binutils 2.40), which is what
 # `readelf --debug-dump` prints.  DW_TAG_template_*_param are the GNU spellings of the DWARF
 # DW_TAG_template_*_parameter; DW_AT_stride_size is the DWARF v2 name of 0x2e (DW_AT_bit_stride
@@ -167,5 +177,6 @@ TABLES = [
     ('Arm aaelf64 IHI0056 / aaelf32 IHI0044', '', ARM_PSABI),
     ('Oracle Solaris Linker and Libraries Guide / binutils elf/common.h', '', SOLARIS),
     ('binutils-2.40 include/elf, psABIs, linux uapi, bionic', '', GNU_MISC),
+    ('binutils-2.40 include/elf/arm.h, ppc64.h (names printed by readelf -r)', '', BINUTILS_RELOC_NAMES),
     ('GNU dwarf2.def/dwarf2.h (binutils 2.40), DWARF v2, LLVM<=10 Dwarf.def', '', GNU_DWARF),
 ]
